@@ -42,10 +42,18 @@ def probe():
     G = gen_mod()
     logging.disable(logging.CRITICAL)
     facts = {"ops": {}, "fns": [], "extended": [], "problems": []}
+
+    def slex(key, node):
+        """text of a node as wire words; text outside the A1 fragment becomes a marker that no obligation accepts"""
+        try:
+            return pyfrag.lex(str(G.parseExpression(node)))
+        except Exception as ex:
+            facts["problems"].append((key, f"{type(ex).__name__}: {str(ex)[:100]}"))
+            return ["IUNSUPPORTED_TEXT"]
     try:
         for sym, _ in XOPS:
-            facts["ops"][sym] = pyfrag.lex(str(G.parseExpression({"type": "operator", "name": sym, "args": [ph(0), ph(1)]})))
-        facts["not"] = pyfrag.lex(str(G.parseExpression({"type": "operator", "name": "not", "args": [ph(0)]})))
+            facts["ops"][sym] = slex("op" + sym, {"type": "operator", "name": sym, "args": [ph(0), ph(1)]})
+        facts["not"] = slex("not", {"type": "operator", "name": "not", "args": [ph(0)]})
         for f, n in VOCAB:
             try:
                 if f == "()":
@@ -61,8 +69,8 @@ def probe():
                 facts["extended"].append((f, n, pyfrag.lex(str(G.parseExpression({"type": "call", "name": f, "args": args})))))
             except Exception as ex:
                 facts["problems"].append((f"{f}/{n}", f"{type(ex).__name__}: {str(ex)[:100]}"))
-        facts["ident"] = pyfrag.lex(str(G.parseExpression({"type": "identifier", "name": "probe"})))
-        full = pyfrag.lex(str(G.parseExpression({"type": "call", "name": "init", "args": [{"type": "identifier", "name": "probe"}]})))
+        facts["ident"] = slex("ident", {"type": "identifier", "name": "probe"})
+        full = slex("identInit", {"type": "call", "name": "init", "args": [{"type": "identifier", "name": "probe"}]})
         tm = next((w for f, n, w in facts["fns"] if (f, n) == ("init", 1)), ["H0"])
         k = tm.index("H0") if "H0" in tm else 0
         facts["identInit"] = full[k:len(full) - (len(tm) - k - 1)]
@@ -713,7 +721,7 @@ def run(chk):
     if good:
         ob = ("theorem cfg_good : good cfg xmilePrec = true := by decide +kernel\n"
               "theorem shapes_ok : shapesOK cfg = true := by decide +kernel\n"
-              "theorem extended_ok : (tableOK 0 extended && extended.all primOK) = true := by decide +kernel\n"
+              "theorem extended_ok : (tableOK 1 extended && extended.all primOK) = true := by decide +kernel\n"
               "theorem holds : C03_full cfg xmilePrec := C03_full_of_good cfg xmilePrec xmile_prec_agrees cfg_good shapes_ok\n"
               "#print axioms holds\n")
     else:
